@@ -512,7 +512,7 @@ class Time:
             val = val - Q(24000005, 10)
         elif format not in (None, "mjd"):
             raise UnsupportedByShim("Time format %r" % format)
-        self._v = val
+        self._v = val.copy() if isinstance(val, symnp.SymArray) else val      # astropy keeps its own copy of the input
         self.format = "mjd"
         self.scale = scale or "utc"
 
@@ -530,7 +530,7 @@ class Time:
     @property
     def tt(self): return self._to("tt")
     @property
-    def mjd(self): return self._v
+    def mjd(self): return self._v.copy() if isinstance(self._v, symnp.SymArray) else self._v      # a fresh array on every access, as in astropy
     @property
     def jd(self): return self._v + Q(24000005, 10)
     @property
